@@ -279,3 +279,133 @@ mod tests {
         assert_eq!(ref_header(&[0x00, 0x81], 2), RefHeader::BadId);
     }
 }
+
+// ---------------------------------------------------------------------------
+// Hierarchy oracles (C06, C07, C11)
+use ebml_iterable::specs::PathPart;
+
+/// Declared path read as a pattern over the chain of open masters (outermost first):
+/// `Id(x)` matches exactly one master x; `Global(min,max)` matches k arbitrary masters,
+/// min <= k <= max (absent min = 0, absent max = unbounded); the whole chain must be
+/// consumed. Chains and paths of up to 4 entries.
+pub fn ref_match(chain: &[u64], path: &[PathPart]) -> bool {
+    const N: usize = 6;
+    let p = path.len();
+    let c = chain.len();
+    if p >= N || c >= N {
+        return false;
+    }
+    // m[i][j]: path[i..] matches chain[j..]
+    let mut m = [[false; N]; N];
+    let mut i = p + 1;
+    while i > 0 {
+        i -= 1;
+        let mut j = c + 1;
+        while j > 0 {
+            j -= 1;
+            m[i][j] = if i == p {
+                j == c
+            } else {
+                match path[i] {
+                    PathPart::Id(x) => j < c && chain[j] == x && m[i + 1][j + 1],
+                    PathPart::Global((mn, mx)) => {
+                        let lo = mn.unwrap_or(0);
+                        let mut ok = false;
+                        let mut k = 0;
+                        while k <= c - j {
+                            let within = (k as u64) >= lo && match mx { Some(h) => (k as u64) <= h, None => true };
+                            if within && m[i + 1][j + k] {
+                                ok = true;
+                            }
+                            k += 1;
+                        }
+                        ok
+                    }
+                }
+            };
+        }
+    }
+    m[0][0]
+}
+
+#[cfg(test)]
+mod hier_tests {
+    use super::*;
+    use PathPart::{Global, Id};
+    #[test]
+    fn match_vectors() {
+        // exact paths
+        assert!(ref_match(&[], &[]));
+        assert!(!ref_match(&[1], &[]));
+        assert!(ref_match(&[1, 2], &[Id(1), Id(2)]));
+        assert!(!ref_match(&[1], &[Id(1), Id(2)]));
+        assert!(!ref_match(&[1, 2, 3], &[Id(1), Id(2)]));
+        // repo test `validate_global_hierarchies`: Crc32 = (1-), Void = (-)
+        assert!(!ref_match(&[], &[Global((Some(1), None))]));
+        assert!(ref_match(&[9], &[Global((Some(1), None))]));
+        assert!(ref_match(&[9, 8, 7], &[Global((Some(1), None))]));
+        assert!(ref_match(&[], &[Global((None, None))]));
+        assert!(ref_match(&[5, 6], &[Global((None, None))]));
+        // bounds
+        assert!(ref_match(&[1, 9], &[Id(1), Global((Some(1), Some(2)))]));
+        assert!(ref_match(&[1, 9, 9], &[Id(1), Global((Some(1), Some(2)))]));
+        assert!(!ref_match(&[1, 9, 9, 9], &[Id(1), Global((Some(1), Some(2)))]));
+        assert!(!ref_match(&[1], &[Id(1), Global((Some(1), Some(2)))]));
+        // intermediate placeholder
+        assert!(ref_match(&[1, 2], &[Id(1), Global((None, None)), Id(2)]));
+        assert!(ref_match(&[1, 7, 2], &[Id(1), Global((None, None)), Id(2)]));
+        assert!(!ref_match(&[2], &[Global((Some(1), None)), Id(2)]));
+        assert!(ref_match(&[7, 2], &[Global((Some(1), None)), Id(2)]));
+        assert!(ref_match(&[7, 2], &[Global((None, Some(1))), Id(2)]));
+        assert!(ref_match(&[2, 2], &[Global((None, None)), Id(2)]));
+        assert!(!ref_match(&[7, 7, 2], &[Global((None, Some(1))), Id(2)]));
+    }
+}
+
+/// Reference for spec `Tree` (see specs.rs): declared parent of each element.
+pub fn tree_parent(x: u64) -> Option<u64> {
+    match x {
+        0x82 | 0x88 | 0x85 => Some(0x81), // A, A2, L1 under Root
+        0x83 | 0x86 => Some(0x82),        // B, L2 under A
+        0x87 => Some(0x83),               // L3 under B
+        _ => None,
+    }
+}
+pub fn tree_declared(x: u64) -> bool {
+    matches!(x, 0x81..=0x88 | 0xEC | 0xBF)
+}
+pub fn tree_global(x: u64) -> bool {
+    x == 0xEC || x == 0xBF
+}
+/// C07: element `e` directly ends unknown-size master `m` iff e is a sibling of m, a new
+/// instance of one of m's ancestors, or a root element; globals and undeclared ids never do.
+pub fn tree_direct_close(m: u64, e: u64) -> bool {
+    if !tree_declared(e) || tree_global(e) {
+        return false;
+    }
+    let root = tree_parent(e).is_none();
+    let sibling = tree_parent(e) == tree_parent(m);
+    let p1 = tree_parent(m);
+    let p2 = p1.and_then(tree_parent);
+    let p3 = p2.and_then(tree_parent);
+    let ancestor = p1 == Some(e) || p2 == Some(e) || p3 == Some(e);
+    root || sibling || ancestor
+}
+/// Length of the chain that remains after `e` closed open unknown-size masters: the
+/// masters closed are the innermost run of unknown-size masters from the outermost
+/// one that `e` directly ends (an unknown-size master directly enclosing a closed one
+/// ... closes with it, C07).
+pub fn tree_chain_after_closing(ids: &[u64], unknown: &[bool], n: usize, e: u64) -> usize {
+    let mut cut = n;
+    let mut j = n;
+    while j > 0 {
+        j -= 1;
+        if !unknown[j] {
+            break;
+        }
+        if tree_direct_close(ids[j], e) {
+            cut = j;
+        }
+    }
+    cut
+}
